@@ -52,6 +52,8 @@ type vCfg struct {
 	schemes []string
 	tbl     map[string]*vEntry
 	order   []string
+	// re-resolve family only: the WatcherFunc handed to the last Retrieve of each uri
+	watchers map[string]WatcherFunc
 }
 
 func (c *vCfg) put(key string, e *vEntry) {
@@ -101,10 +103,13 @@ type vProv struct {
 	c      *vCfg
 }
 
-func (p *vProv) Retrieve(_ context.Context, uri string, _ WatcherFunc) (*Retrieved, error) {
+func (p *vProv) Retrieve(_ context.Context, uri string, w WatcherFunc) (*Retrieved, error) {
 	e, ok := p.c.tbl[uri]
 	if !ok || e.err {
 		return nil, errors.New("verif-provider-error " + uri)
+	}
+	if p.c.watchers != nil {
+		p.c.watchers[uri] = w
 	}
 	if e.hasStr {
 		return NewRetrieved(vCopy(e.raw), withStringRepresentation(e.str))
@@ -221,20 +226,28 @@ type vResult struct {
 	err  error
 }
 
-func vResolve(c *vCfg, nsrc int) (res vResult, finished bool) {
+func vSrcURIs(nsrc int) []string {
+	uris := make([]string, nsrc)
+	for i := range uris {
+		uris[i] = "src:" + strconv.Itoa(i)
+	}
+	return uris
+}
+
+func vNewResolverFor(c *vCfg, uris []string) *Resolver {
 	var facs []ProviderFactory
 	for _, s := range c.schemes {
 		s := s
 		facs = append(facs, NewProviderFactory(func(ProviderSettings) Provider { return &vProv{s, c} }))
 	}
-	uris := make([]string, nsrc)
-	for i := range uris {
-		uris[i] = "src:" + strconv.Itoa(i)
-	}
 	r, err := NewResolver(ResolverSettings{URIs: uris, ProviderFactories: facs, DefaultScheme: c.def})
 	if err != nil {
 		panic("verif: NewResolver: " + err.Error())
 	}
+	return r
+}
+
+func vRunResolver(r *Resolver) (res vResult, finished bool) {
 	ch := make(chan vResult, 1)
 	go func() {
 		conf, err := r.Resolve(context.Background())
@@ -315,8 +328,19 @@ type vObs struct {
 	hung    bool
 }
 
-func vObserve(c *vCfg, nsrc int) vObs {
-	res, fin := vResolve(c, nsrc)
+func vObserve(c *vCfg, nsrc int) vObs { return vObserveOn(vNewResolverFor(c, vSrcURIs(nsrc))) }
+
+// a source list given by indices into the "src:<i>" entries (the same URI may be listed more than once)
+func vObserveIdx(c *vCfg, idx []int) vObs {
+	uris := make([]string, len(idx))
+	for i, j := range idx {
+		uris[i] = "src:" + strconv.Itoa(j)
+	}
+	return vObserveOn(vNewResolverFor(c, uris))
+}
+
+func vObserveOn(r *Resolver) vObs {
+	res, fin := vRunResolver(r)
 	if !fin {
 		return vObs{hung: true, errCode: 98, term: "(WObsErr 98)"}
 	}
@@ -484,7 +508,7 @@ func vChunk(r *vRand, n int) string {
 
 // names of provider entries by level (a value of level k only references lower levels)
 var vLevelNames = [][]string{
-	{"A", "B", "N", "F", "T", "NIL", "M", "M2", "L", "S", "Q", "DOL", "ESC", "OB", "CL", "P", "EMP", "W", "LW", "A", "B", "N", "A", "B", "S", "EMP", "ESC", "ERR", "ZZ"},
+	{"A", "B", "N", "F", "T", "NIL", "M", "M2", "L", "S", "Q", "DOL", "ESC", "OB", "CL", "P", "EMP", "W", "LW", "NUL", "ZERO", "A", "B", "N", "A", "B", "S", "EMP", "ESC", "ERR", "ZZ"},
 	{"R1", "R1b", "MR"},
 	{"R2"},
 }
@@ -608,6 +632,8 @@ func vWildTable(r *vRand, c *vCfg, st map[string]int) {
 	c.put("env:ERR", &vEntry{err: true})
 	c.put("env:EMP", &vEntry{raw: ""})
 	c.put("env:W", &vEntry{raw: 7, str: "7$$", hasStr: true})
+	c.put("env:NUL", vYAML([]string{"null", "~", "Null", "NULL"}[r.Intn(4)])) // YAML null scalars: value nil, text kept
+	c.put("env:ZERO", vYAML([]string{"0", "false", "0.0", "''", "[]", "{}"}[r.Intn(6)]))
 	c.put("env:LW", vYAML("[a$$b, 2]"))
 	c.put("env:A$", &vEntry{raw: "never"})
 	c.put("file:A", &vEntry{raw: "fa"})
@@ -1111,7 +1137,7 @@ func TestVerifC12(t *testing.T) {
 				all := c.order
 				nm := all[r.Intn(len(all))]
 				if r.Bool() { // half of them: entries with a typed scalar value and a text
-					nm = []string{"env:N", "env:F", "env:T", "env:NIL", "env:W", "file:N"}[r.Intn(6)]
+					nm = []string{"env:N", "env:F", "env:T", "env:NIL", "env:W", "file:N", "env:NUL", "env:NUL", "env:ZERO"}[r.Intn(9)]
 				}
 				if strings.HasPrefix(nm, "env:") && def != "" && r.Bool() {
 					nm = nm[4:]
@@ -1394,6 +1420,105 @@ func TestVerifC12(t *testing.T) {
 		}
 	}
 
+	// -- family 6: the same Resolver used again (the documented Resolve / Watch / Resolve cycle).  After the first
+	// Resolve the values behind references and sources change, a provider signals the change through its
+	// WatcherFunc, and Resolve is called again on the SAME Resolver (up to 3 times).  Each Resolve is a
+	// correspondence case against the table as it is at that moment; direct oracle: the result equals that of
+	// a FRESH Resolver on the current table (what the provider returns NOW).
+	nRe := vBudget(90, 12)
+	for i := 0; i < nRe; i++ {
+		r := vNewRand(uint64(6000003 + i))
+		def := ""
+		if r.Bool() {
+			def = "env"
+		}
+		c := vNewCfg(def, "env", "tt")
+		c.watchers = map[string]WatcherFunc{}
+		d := vNewDeep(r, c)
+		genSrc := func() map[string]any {
+			m := map[string]any{}
+			for k, nk := 0, 2+r.Intn(3); k < nk; k++ {
+				key := "k" + strconv.Itoa(k)
+				switch r.Pick(25, 20, 15, 15, 15, 10) {
+				case 0:
+					m[key] = d.item(r).text
+				case 1:
+					m[key] = "${" + d.refName([]string{"A", "B", "N", "E", "R1", "R2"}[r.Intn(6)]) + "}"
+				case 2:
+					m[key] = "${" + d.refName([]string{"YL", "YM"}[r.Intn(2)]) + "}"
+				case 3:
+					m[key] = []any{d.item(r).text, "${" + d.refName("N") + "}"}
+				case 4:
+					m[key] = map[string]any{"in": d.item(r).text, "n": "${" + d.refName("R1") + "}"}
+				case 5:
+					m[key] = "${env:${env:PTR}}"
+				}
+			}
+			return m
+		}
+		c.put("env:PTR", &vEntry{raw: "A"})
+		srcs := []any{genSrc(), map[string]any{"over": d.item(r).text}}
+		c.setSources(srcs)
+		res := vNewResolverFor(c, vSrcURIs(2))
+		steps := 2 + r.Intn(2)
+		for step := 0; step < steps; step++ {
+			if step > 0 {
+				// the world changes ...
+				for _, n := range []string{"A", "B", "C"} {
+					if r.Intn(3) > 0 {
+						c.put("env:"+n, &vEntry{raw: vGenLit(r, 1+r.Intn(4), false) + strconv.Itoa(step)})
+					}
+				}
+				if r.Bool() {
+					c.put("env:N", vYAML(strconv.Itoa(1000+r.Intn(1000))))
+				}
+				if r.Bool() {
+					c.put("env:PTR", &vEntry{raw: []string{"A", "B", "C"}[r.Intn(3)]})
+				}
+				if r.Intn(3) == 0 {
+					nd := vNewDeep(r, c) // new R1 / R2 / YL / YM texts as well
+					d = nd
+				}
+				if r.Intn(3) == 0 {
+					srcs = []any{genSrc(), srcs[1]}
+					c.setSources(srcs)
+					st["re-resolve-source-changed"]++
+				}
+				// ... and one provider says so (Resolver.Watch fires)
+				var ws []string
+				for u := range c.watchers {
+					ws = append(ws, u)
+				}
+				sort.Strings(ws)
+				if len(ws) > 0 && r.Intn(4) > 0 {
+					c.watchers[ws[r.Intn(len(ws))]](&ChangeEvent{})
+					select {
+					case <-res.Watch():
+						st["re-resolve-watch-fired"]++
+					case <-time.After(60 * time.Second):
+						out.Oracle("watch-not-delivered", vCaseTerm(c, srcs, vObs{term: "(WObsErr 96)"}), "a provider called its WatcherFunc, Resolver.Watch() did not fire within 60 s")
+					}
+				}
+				c.watchers = map[string]WatcherFunc{}
+			}
+			o := vObserveOn(res)
+			term := vCaseTerm(c, srcs, o)
+			if hung(term, o) {
+				return
+			}
+			emit(true, term)
+			st[fmt.Sprintf("re-resolve-step-%d", step)]++
+			saved := c.watchers
+			c.watchers = nil
+			fresh := vObserve(c, 2)
+			c.watchers = saved
+			if o.errCode != fresh.errCode || (o.errCode == -1 && !vEq(fresh.tsm, o.tsm)) || o.term != fresh.term {
+				out.Oracle("re-resolve-stale", term, fmt.Sprintf("Resolve number %d on the same Resolver: class %d result %v; a fresh Resolver on the providers' CURRENT values: class %d result %v", step+1, o.errCode, o.tsm, fresh.errCode, fresh.tsm))
+			}
+		}
+		st["re-resolve-cases"]++
+	}
+
 	// -- family 3: merges
 	nMerge := vBudget(300, 12)
 	for i := 0; i < nMerge; i++ {
@@ -1436,12 +1561,43 @@ func TestVerifC12(t *testing.T) {
 			}
 		}
 		c.setSources(srcs)
-		o := vObserve(c, ns)
+		// the list of source URIs: usually each source once; sometimes the same URI is listed again, adjacent or
+		// with other (conflicting) sources in between — every listed occurrence is merged, in order
+		idx := make([]int, ns)
+		for j := range idx {
+			idx[j] = j
+		}
+		if r.Intn(3) == 0 {
+			switch r.Intn(4) {
+			case 0: // [.., A, .., A]: the first source again at the end
+				idx = append(idx, r.Intn(ns))
+			case 1: // a random sequence over the sources
+				n := ns + 1 + r.Intn(3)
+				idx = make([]int, n)
+				for j := range idx {
+					idx[j] = r.Intn(ns)
+				}
+			case 2: // adjacent duplicate
+				j := r.Intn(ns)
+				idx = append(idx[:j+1], idx[j:]...)
+			case 3: // palindrome A B .. B A
+				for j := ns - 2; j >= 0; j-- {
+					idx = append(idx, j)
+				}
+			}
+			st["merge-uri-listed-again"]++
+		}
+		seq := make([]any, len(idx))
+		for j, k := range idx {
+			seq[j] = srcs[k]
+		}
+		srcs = seq
+		o := vObserveIdx(c, idx)
 		term := vCaseTerm(c, srcs, o)
 		if hung(term, o) {
 			return
 		}
-		emit(ns > 1, term)
+		emit(len(idx) > 1, term)
 		st["merge-cases"]++
 		st[fmt.Sprintf("merge-sources-%d", ns)]++
 		if withRefs {
